@@ -58,6 +58,10 @@ class Net:
         return FakeSocket(self)
 
     def send(self, data):
+        if getattr(self, "send_fault", None) is not None:
+            exc, self.send_fault = self.send_fault, None      # the write fails: nothing reaches the peer
+            self.log.append(("X", self.conn))
+            raise exc
         self.log.append(("S", self.conn, self.tls, bytes(data)))
         if self.driver is not None:
             r = unhx(self.driver.ask("srv_feed " + hx(data)))
@@ -85,6 +89,8 @@ class Net:
         for e in self.log:
             if e[0] == "S":
                 out.append("S%d:%d:%s" % (e[1], 1 if e[2] else 0, hx(e[3])))
+            elif e[0] == "X":
+                continue
             else:
                 out.append("%s%d" % (e[0], e[1]))
         return " ".join(out) if out else "-"
